@@ -224,14 +224,18 @@ mod tests {
         assert!(decode_run(false, "a<b").is_none());
     }
 
-    /// Observation recorded in bin/props/C17.json: a name written `:local` (accepted by xmlparser
-    /// and xot) gets the span of `local` alone.
+    /// A name written `:local` (let through by xmlparser) is rejected since /repo a5fafb0, with the
+    /// span of the whole name as written (formerly accepted with the span of `local` alone: the two
+    /// fixed C17 findings).
     #[test]
     fn colon_first_name() {
         let mut xot = xot::Xot::new();
-        let (doc, spans) = xot.parse_with_span_info("<:a/>").unwrap();
-        let e = xot.document_element(doc).unwrap();
-        let s = spans.get(xot::SpanInfoKey::ElementStart(e)).unwrap();
-        assert_eq!((s.start, s.end), (2, 3));
+        match xot.parse_with_span_info("<:a/>") {
+            Err(xot::ParseError::UnknownPrefix(p, s)) => {
+                assert_eq!(p, "");
+                assert_eq!((s.start, s.end), (1, 3));
+            }
+            _ => panic!("<:a/> must be rejected with UnknownPrefix"),
+        }
     }
 }
